@@ -28,6 +28,10 @@ fn main() {
         c16::child_main(&args[2]);
         return;
     }
+    if args.len() >= 5 && args[1] == "--subscriber-child" {
+        c06::subscriber_child(&args[2], &args[3], &args[4]);
+        return;
+    }
     if args.len() < 3 {
         eprintln!("usage: e2elab <C03|C04|C06|C07|C08|C11|C12|C15|C16|C17> <quick|thorough|replay> [file]");
         std::process::exit(2);
